@@ -495,9 +495,11 @@ pub fn replay_case(mon: &mut dyn Monitor, case: &Case) -> Value {
     match v {
         Verdict::Held => json!({"verdict": "held"}),
         Verdict::Discard(r) => json!({"verdict": "discard", "reason": r}),
-        Verdict::Violated { signature, detail, .. } => {
-            let fine = guarded(|| mon.classify(case, &signature)).unwrap_or_else(|_| signature.clone());
-            json!({"verdict": "violated", "signature": fine, "detail": detail})
+        Verdict::Violated { signature, detail, narrowed } => {
+            // a case that bundles several evaluations names the failing one: classify that
+            let base = narrowed.clone().unwrap_or_else(|| case.clone());
+            let fine = guarded(|| mon.classify(&base, &signature)).unwrap_or_else(|_| signature.clone());
+            json!({"verdict": "violated", "signature": fine, "detail": detail, "narrowed": narrowed})
         }
     }
 }
@@ -850,6 +852,9 @@ pub fn drive(id: &str, make: &dyn Fn() -> Box<dyn Monitor>, args: DriveArgs) -> 
         let mut c = c;
         if !detail2.is_empty() {
             c.detail = detail2;
+        }
+        if res["narrowed"].is_object() {
+            c.shrunk = res["narrowed"].clone();
         }
         c.signature = sig2;
         violations.push((c, status));
